@@ -6,7 +6,7 @@ PROP = {
     "n": {"quick": 1500, "thorough": 16000},
     "theorems": ["run_graph_straight", "tie_transfers",
                  "addsub_imm_sim", "addsub_shift_sim", "mov_reg_sim", "mov_wide_sim",
-                 "adds_imm_sim", "adds_shift_sim", "subs_imm_sim_partial", "subs_shift_sim_partial", "subs_carry_refuted", "ldr_imm_sim",
+                 "adds_imm_sim", "adds_shift_sim", "subs_imm_sim_partial", "subs_shift_sim_partial", "subs_carry_refuted", "ldr_imm_sim", "str_imm_sim", "ldst_ord_sim", "stp_sim", "ldp_sim", "ldst_imm_sim",
                  "b_sim", "bl_sim", "br_sim", "blr_sim", "ret_sim", "bcond_sim", "cb_sim", "tb_sim"],
     "tie_name": "mirror(decode word) = IL dumped by translator::aarch64 (syntactic tie) / dumped IL runs without getting stuck",
     "rule": "case i < 7034: entry (i * 7919 mod 7034) of the structured table of instruction words (add/sub immediate | shifted | extended register x W/X x "
@@ -24,18 +24,20 @@ PROP = {
     "assumptions": ["data accesses that wrap around 2^64 and CONSTRAINED UNPREDICTABLE register coincidences are outside the comparison (a64step = Undef)",
                     "instruction address + 4 < 2^64"],
     "partial": [
-        "theorem [U] + syntactic tie per enumerated word: ADD/SUB immediate (incl. MOV to/from SP); ADD/SUB shifted register LSL/LSR; MOV register (ORR alias); "
-        "MOV wide / inverted wide (MOVZ/MOVN aliases); B, BL, BR, BLR, RET, B.cond, CBZ/CBNZ, TBZ/TBNZ",
-        "syntactic tie (mirror = dumped IL) + sampled-state comparison only, no theorem yet: ADDS/SUBS (all operand forms); ADD/SUB shifted register ASR/ROR; "
-        "ADD/SUB extended register; every load/store form (unsigned offset, unscaled, pre/post-index, register offset, ordered, pairs, LDPSW)",
+        "theorem [U] + syntactic tie per enumerated word: ADD/SUB and ADDS immediate (incl. MOV to/from SP); ADD/SUB and ADDS shifted register LSL/LSR; "
+        "MOV register (ORR alias); MOV wide / inverted wide (MOVZ/MOVN aliases); LDR/LDRB/LDRH/LDRSB/LDRSH/LDRSW and STR/STRB/STRH in the unsigned-offset "
+        "and unscaled forms; LDAR/LDLAR/STLR/STLLR(+B/H); B, BL, BR, BLR, RET, B.cond, CBZ/CBNZ, TBZ/TBNZ",
+        "partial theorem [U] (everything but C, and c = NOT C proved) + refutation witness: SUBS immediate, SUBS shifted register LSL/LSR",
+        "syntactic tie (mirror = dumped IL) + sampled-state comparison only, no theorem yet: add/sub/adds/subs shifted register ASR/ROR; add/sub/adds/subs "
+        "extended register; loads/stores with pre/post-index write-back, register offset (all extends), pairs LDP/STP/LDPSW/LDNP/STNP",
         "accepted by the lifter, outside the listed integer classes, neither theorem nor comparison: SIMD&FP register loads/stores (ldr/str b/h/s/d/q), NOP, PRFM, STLUR* ",
         "known finding kf:subs-carry-is-borrow: every accepted SUBS sets c = 'a borrow occurred' (Arm ARM: C = NOT borrow); fixing it needs the unedited test subs_xn to change",
         "the decoder's field ranges (0 <= rn < 32, ...) are hypotheses of the theorems; Isa/A64.decode produces them by construction (bits = mod) but this is not proved",
     ],
-    "level_text": "Unbounded Coq theorems for 13 instruction forms (all register/immediate fields, all addresses, all states): running the Gallina mirror of the "
+    "level_text": "Unbounded Coq theorems for 20 instruction forms (all register/immediate fields, all addresses, all states): running the Gallina mirror of the "
                   "AArch64 builders in the reference IL semantics yields the X0-X30/SP, NZCV, memory and next pc of a Gallina transcription of the Arm ARM "
                   "pseudocode; a kernel-evaluated syntactic tie (mirror(decoded word) = IL dumped by the real translate_block) transfers them to every enumerated "
-                  "encoding. All other listed forms (flags, extended register, loads/stores, pairs) are covered by the same tie plus an in-kernel comparison of "
+                  "encoding. All other listed forms (ASR/ROR and extended-register operands, write-back and register-offset addressing, pairs) are covered by the same tie plus an in-kernel comparison of "
                   "the dumped IL against the specification on sampled boundary states.",
     "level_note": "Trusted: Coq kernel + vm_compute; the transcription of the Arm ARM (Isa/A64.v); Exec/Sem.v; the harness printer. The decoder bad64 is not trusted "
                   "beyond the enumerated words: its operand presentation is re-checked against the mirror on every run.",
